@@ -293,6 +293,7 @@ void
 RegistryT<ArgsT<TG_, TSL_, TRL_, NCC_, NOC_, NOU_, TRO_ HFSM2_IF_SERIALIZATION(, NSB_) HFSM2_IF_PLANS(, NTC_), TTP_>>::backup(BackUp& copy) const noexcept {
 	overwriteWith(copy.compoRequested, compoRequested);
 	overwriteWith(copy.orthoRequested, orthoRequested);
+	overwriteWith(copy.compoRemains  , compoRemains  );
 }
 
 // - - - - - - - - - - - - - - - - - - - - - - - - - - - - - - - - - - - - - - -
@@ -303,6 +304,7 @@ void
 RegistryT<ArgsT<TG_, TSL_, TRL_, NCC_, NOC_, NOU_, TRO_ HFSM2_IF_SERIALIZATION(, NSB_) HFSM2_IF_PLANS(, NTC_), TTP_>>::restore(const BackUp& copy) noexcept {
 	overwriteWith(compoRequested, copy.compoRequested);
 	overwriteWith(orthoRequested, copy.orthoRequested);
+	overwriteWith(compoRemains  , copy.compoRemains  );
 }
 
 // - - - - - - - - - - - - - - - - - - - - - - - - - - - - - - - - - - - - - - -
